@@ -259,14 +259,12 @@ pub fn check_c01(scn: &LoopScn, r: &RunResult, out: &LoopOut) -> Vec<Violation> 
             let gens = s.pre.iter().filter(|e| matches!(e.kind, Ev::User(UserEv::Gen { .. }))).count();
             let where_ = format!("thread {t} sample {}", s.round);
             // Everything in its place relative to the sample's timestamps.
-            if s.pre.iter().any(|e| {
-                matches!(
-                    e.kind,
-                    Ev::User(UserEv::CallBegin { .. } | UserEv::DropOutput { .. } | UserEv::DropInput { .. })
-                )
-            }) && s.start.is_some()
-            {
-                vs.push(v("lifecycle_order", format!("{where_}: call or drop before the start timestamp")));
+            // (Drops before the start timestamp can only be those of an
+            // earlier sample's values — late, but after that sample's timed
+            // section, which is all the property asks; a value of *this*
+            // sample dropped before its call is caught per value.)
+            if s.pre.iter().any(|e| matches!(e.kind, Ev::User(UserEv::CallBegin { .. }))) && s.start.is_some() {
+                vs.push(v("lifecycle_order", format!("{where_}: benchmarked call before the start timestamp")));
             }
             if s.win.iter().any(|e| {
                 matches!(e.kind, Ev::User(UserEv::DropOutput { .. } | UserEv::DropInput { .. }))
